@@ -68,11 +68,11 @@ type InExpr struct {
 // Resolve InExpr 表达式解析
 func (in *InExpr) Resolve(types []reflect.Type, isVariadic bool) error {
 	expressions := make([][]Expr, 0)
-	for i, v := range in.args {
+	for _, v := range in.args {
 		param, ok := v.([]interface{})
 		if ok {
 
-		} else if isVariadic && i >= len(types)-1 {
+		} else if isVariadic && len(types) == 1 && reflect.ValueOf(v).Kind() == reflect.Slice {
 			// 可变参数需要展开参数数组, 为每个参数元素生成独立表达式
 			expandArgs := make([]interface{}, 0)
 			rv := reflect.ValueOf(v)
@@ -97,15 +97,8 @@ func (in *InExpr) Resolve(types []reflect.Type, isVariadic bool) error {
 // Eval InExpr 表达式执行
 func (in *InExpr) Eval(input []reflect.Value, isVariadic bool) (bool, error) {
 	if isVariadic {
-		// 可变参数需要展开参数数组
-		expandArgs := make([]reflect.Value, 0)
-		for _, v := range input {
-			rv := reflect.ValueOf(v.Interface())
-			for i := 0; i < rv.Len(); i++ {
-				expandArgs = append(expandArgs, rv.Index(i))
-			}
-		}
-		input = expandArgs
+		// 可变参数需要展开参数数组(只展开最后一个参数)
+		input = ExpandVariadic(input)
 	}
 outer:
 	for _, one := range in.expressions {
@@ -114,7 +107,8 @@ outer:
 			continue
 		}
 		for i, param := range one {
-			v, err := param.Eval([]reflect.Value{input[i]}, isVariadic)
+			// 展开之后每个元素都是单值, 不再按可变参数处理
+			v, err := param.Eval([]reflect.Value{input[i]}, false)
 			if err != nil {
 				return false, err
 			}
@@ -126,4 +120,18 @@ outer:
 		return true, nil
 	}
 	return false, nil
+}
+
+// ExpandVariadic 展开可变参数调用的实参: 固定参数保持不变, 最后一个参数(切片)展开为各个元素
+func ExpandVariadic(args []reflect.Value) []reflect.Value {
+	if len(args) == 0 {
+		return args
+	}
+	expandArgs := make([]reflect.Value, 0, len(args)+2)
+	expandArgs = append(expandArgs, args[:len(args)-1]...)
+	rv := args[len(args)-1]
+	for i := 0; i < rv.Len(); i++ {
+		expandArgs = append(expandArgs, rv.Index(i))
+	}
+	return expandArgs
 }
